@@ -81,7 +81,17 @@ def trace_part(chk, tier):
             if rng.random() < 0.5:
                 nsmap['p'] = 'urn:b'
         jobs.append(('n%d' % k, d, asts, [0] + ([rng.choice(els)] if len(els) > 1 else []), nsmap))
-    lines = trace.record_select(jobs)
+    trace.SPELL_SEED = common.SEED + 2      # the selector texts are random respellings of the generated ASTs
+    try:
+        lines = trace.record_select(jobs)
+    finally:
+        trace.SPELL_SEED = None
     trace.validate(chk, lines, 'Trace_Select', 'trace-nth')
+    # the same events against the implementation-shaped pipeline (text -> tokens -> AST -> IR -> match_nth as Ir!AlgoNth), all in TLA+
+    from harness import statedefs, tlc
+    import os
+    if not os.path.basename(tlc.SPEC_DIR).startswith('verif_spec_'):
+        statedefs.use_tree_under_test()
+    trace.validate(chk, lines if tier == 'thorough' else lines[::3], 'Trace_Pipe', 'trace-pipe', batch=400)
     e = json.loads(lines[0])
     chk.sample({'trace_event': {'css': e['css'], 'target': e['target'], 'res': e['res']}}, cap=14)
